@@ -732,6 +732,7 @@ func runC19(c *Ctx, r *Report) {
 	c19r8(c, r)
 	c19r9(c, r)
 	c19r10(c, r)
+	c19r11(c, r)
 	c12r11(c, r) // the walker options survive the relaunch inside tmux word for word
 }
 
